@@ -30,8 +30,7 @@ def _kp_text_keyerror(case):
         and isinstance(case['args'][1], str) and '..' in case['args'][1]
 
 
-# Registered but INERT (no entry in known_findings.json; the oracle clause that would raise them only counts
-# them in the histogram, see text_part): where pycel's TEXT differs from Excel inside the 0 # , . % grammar.
+# where pycel's TEXT differs from Excel inside the 0 # , . % grammar (known findings)
 @known_predicate('C20-text-pad-not-grouped')
 def _kp_text_pad_not_grouped(case):
     return case['call'] == 'text' and case.get('oracle') == 'text-pad-not-grouped'
@@ -534,7 +533,8 @@ def spec_stream(ctx, calls, impl):
         requested digits (theorem C20_text_nontie on the implementation) -- the ties are the known finding
         C20-text-half-even and are left to the older oracle below;
     (3) where Excel differs from text_spec inside the grammar (padding zeros under grouping, scaling commas) the
-        case is only counted (candidate findings, predicates registered inert above)."""
+        implementation is compared with Excel's rendering (known findings C20-text-pad-not-grouped,
+        C20-text-scaling-comma)."""
     import decimal
     H = ctx.histogram
     parsed = [parse_fmt(f) for _x, f, *_ in calls]
@@ -583,7 +583,11 @@ def spec_stream(ctx, calls, impl):
         excel, _ = text_spec(dec, fm, 'away', excel_padding=True)
         if excel != want:
             cls = 'text-scaling-comma' if fm[0].endswith(',') else 'text-pad-not-grouped'
-            H['text:candidate:' + cls] = H.get('text:candidate:' + cls, 0) + 1
+            H['text:excel-differs:' + cls] = H.get('text:excel-differs:' + cls, 0) + 1
+            if i[1] != excel:
+                ctx.violation(dict(case, oracle=cls),
+                              "TEXT does not group the padding zeros / does not scale by a trailing comma as Excel does",
+                              impl=i[1], expected=excel)
 
 
 def text_part(ctx, F):
